@@ -152,11 +152,21 @@ def gen_input(rng, kind_hint=None):
             kind += '-crlf'
         return kind, [l.encode() for l in lines], roles, rng.random() < 0.9
     if k == 3:
-        head, _h = corpus.commit_header(rng)
-        d = gen.gen_diff(rng, maxlen=60, nsections=rng.randint(1, 2))
-        stat = corpus.diffstat_lines(rng, [s.new_path for s in d.sections]) if rng.random() < 0.6 else []
-        rl = [('commit' if l.startswith('commit ') else 'meta', l) for l in head + stat] + d.role_lines()
-        return 'log-p', [l.encode() for _, l in rl], [r for r, _ in rl], True
+        rl = []
+        ncommits = rng.choice([1, 1, 2, 3])
+        tformat = ncommits > 1 and rng.random() < 0.5
+        for ci in range(ncommits):
+            head, _h = corpus.commit_header(rng)
+            if tformat:
+                # git log -p --format=...: no empty line between the end of a diff and the next 'commit' line, which then
+                # arrives while removed/added lines are still buffered
+                head = [l for l in head if l.strip()][:2]
+            d = gen.gen_diff(rng, maxlen=60, nsections=rng.randint(1, 2))
+            stat = corpus.diffstat_lines(rng, [s.new_path for s in d.sections]) if rng.random() < 0.6 and not tformat else []
+            rl += [('commit' if l.startswith('commit ') else 'meta', l) for l in head + stat] + d.role_lines()
+            if not tformat and ci < ncommits - 1:
+                rl.append(('meta', ''))
+        return 'log-p' + ('-tformat' if tformat else ''), [l.encode() for _, l in rl], [r for r, _ in rl], True
     if k == 4:
         ls, _m, _p = corpus.gen_combined(rng, conflict=rng.random() < 0.5)
         roles = ['header'] * 4 + ['hunkheader'] + ['hunk'] * (len(ls) - 5)
